@@ -7,7 +7,7 @@ import os
 import sys
 from typing import Dict, List, Optional, Set, Tuple
 
-from oqv.astutil import branch_context, call_name, method_call
+from oqv.astutil import branch_context, call_name, enclosing_chain, method_call
 from oqv.cfg import CFG
 from oqv.dataflow import DefUse, expand
 from oqv.model import AnalysisError, Program, Unit, dotted, norm, walk_local
@@ -491,6 +491,69 @@ def i5_i6(prog: Program, chk: Check) -> None:
             "" if ok and loops == 2 else "half-step propagators do not add up to one full step")
 
 
+# --------------------------------------------------------------------- I7
+def i7(prog: Program, chk: Check) -> None:
+    chk.rule("I7", "reduced density matrix of a subset of sites: between two recorded sites a < b "
+             "the chain that is contracted consists of one bond matrix per bond a..b (b - a of "
+             "them) and one fully traced site tensor per skipped site (b - a - 1) - counted as "
+             "polynomials in a and b over the loops of get_density_matrix", floor=2)
+    from oqv.forms import Poly, eval_form
+    u = prog.unit("backends.pt_tebd_backend:PtTebdBackend.get_density_matrix")
+    chk.saw(u)
+    pair_loops = [x for x in walk_local(u.node) if isinstance(x, ast.For)
+                  and isinstance(x.target, ast.Tuple) and len(x.target.elts) == 2
+                  and all(isinstance(e, ast.Name) for e in x.target.elts)
+                  and isinstance(x.iter, ast.Call) and dotted(x.iter.func) == "zip"]
+    if len(pair_loops) != 1:
+        raise AnalysisError("I7: the loop over consecutive recorded sites was not found")
+    pl = pair_loops[0]
+    a_name, b_name = (e.id for e in pl.target.elts)
+    A, B = Poly.sym("A"), Poly.sym("B")
+
+    def leaf(x):
+        if isinstance(x, ast.Name):
+            if x.id == a_name:
+                return A
+            if x.id == b_name:
+                return B
+        return None
+    totals = {"self._lambdas": Poly(), "self._full_trace_gammas": Poly()}
+    sites = {k: [] for k in totals}
+    for x in ast.walk(pl):
+        if not (isinstance(x, ast.Subscript) and dotted(x.value) in totals
+                and isinstance(x.ctx, ast.Load)):
+            continue
+        mult = Poly.const(1)
+        # enclosing loops / conditionals between the pair loop and the access
+        chain = enclosing_chain(pl, x)
+        for anc in chain:
+            if anc is pl:
+                continue
+            if isinstance(anc, ast.For):
+                it = anc.iter
+                n = None
+                if isinstance(it, ast.Call) and dotted(it.func) == "range" and not it.keywords:
+                    fs = [eval_form(arg, leaf) for arg in it.args]
+                    if all(f is not None for f in fs):
+                        n = fs[0] if len(fs) == 1 else (fs[1] - fs[0] if len(fs) == 2 else None)
+                if n is None:
+                    raise AnalysisError(f"I7: loop `{norm(it)}` in get_density_matrix is outside "
+                                        f"the enumerated idioms (range over forms in a, b)")
+                mult = mult * n
+            elif isinstance(anc, (ast.If, ast.IfExp)):
+                mult = mult * Poly.sym("IF[" + norm(anc.test) + "]")
+        totals[dotted(x.value)] = totals[dotted(x.value)] + mult
+        sites[dotted(x.value)].append(norm(x))
+    want = {"self._lambdas": B - A, "self._full_trace_gammas": B - A - Poly.const(1)}
+    for k in totals:
+        ok = totals[k] == want[k]
+        chk.add("I7", u, f"{k.split('.')[-1]} between sites a and b: {sites[k]}", ok,
+                f"{totals[k]} of them" if ok else
+                f"{totals[k]} of them, expected {want[k]}: bond matrices inside a gap of two or "
+                f"more skipped sites are dropped (or counted twice); the reduced state of "
+                f"non-adjacent sites is wrong although every single-site state is right", pl)
+
+
 def run(prog: Program, chk: Check) -> None:
     chk.explanation = (
         "Decides two clauses of C10: 'all execution modes are usable' as far as name resolution "
@@ -508,6 +571,7 @@ def run(prog: Program, chk: Check) -> None:
         "`with` block joins all workers",
         "tensornetwork Node.copy() returns an independent node",
     ]
-    i1(prog, chk)
-    i2_i3(prog, chk)
-    i5_i6(prog, chk)
+    chk.call(i1, prog, chk)
+    chk.call(i2_i3, prog, chk)
+    chk.call(i5_i6, prog, chk)
+    chk.call(i7, prog, chk)
